@@ -225,6 +225,36 @@ pub fn check_triple(t: &Triple, acc: Option<&mut Acc>) -> Vec<String> {
             acc.count("c09:follows_combined_update");
         }
     }
+    // an all-upper-case spelling of the native addresses (bech32 allows it). Whatever string the contract
+    // then reports as configured is the <native sender> of the derivation: the account of exactly that
+    // string is accepted and the account of the other spelling is a different pair, hence rejected.
+    {
+        let st_up = sc.staker.to_uppercase();
+        let co_up = addr20(&cfg.native_prefix, "collector-upper").to_uppercase();
+        let upd = json!({"update_config": {"native_chain_config": {"account_address_prefix": cfg.native_prefix, "validator_address_prefix": cfg.val_prefix, "token_denom": NATIVE_DENOM, "validators": sc.validators, "unbonding_period": 10, "staker_address": st_up, "reward_collector_address": co_up}}});
+        let r = sc.w.exec(&sc.admin.clone(), &sc.q.clone(), &upd.to_string(), &[]);
+        acc.seen("C09", &format!("upper-case-native|{}", r.ok));
+        if r.ok {
+            if let Ok(c) = sc.qy(json!({"config": {}})) {
+                let nc = c.get("native_chain_config").cloned().unwrap_or(Value::Null);
+                let ch_now = c.get("protocol_chain_config").map(|p| vs(p, "ibc_channel_id")).unwrap_or_default();
+                let stored = vs(&nc, "reward_collector_address");
+                if !stored.is_empty() && !ch_now.is_empty() {
+                    let other = if stored == stored.to_lowercase() { stored.to_uppercase() } else { stored.to_lowercase() };
+                    for (spelling, want) in [(stored.clone(), true), (other, false)] {
+                        let who = hook_sender(&ch_now, &spelling, &t.prefix);
+                        let mut w = sc.w.clone();
+                        w.mint_raw(&who, &s, 100);
+                        let r = w.exec(&who, &sc.q, &json!({"receive_rewards": {}}).to_string(), &[(s.clone(), 100)]);
+                        if r.ok != want {
+                            out.push(format!("collector configured as {stored}: the hook account of ({ch_now}, {spelling}) was {}", if r.ok { "accepted" } else { "rejected" }));
+                        }
+                    }
+                    acc.count("c09:upper_case_native");
+                }
+            }
+        }
+    }
     out
 }
 
